@@ -152,3 +152,10 @@ Definition py_dict_move_to_end {K V : Type} (eqb : K -> K -> bool) (d : list (K 
   | None => Raise KeyError
   | Some kv => Ok (filter (fun kv' => negb (eqb k (fst kv'))) d ++ [kv])
   end.
+
+(* d.get(k, default) on a dict VALUE (no duplicate keys): the first entry of the key *)
+Fixpoint py_dict_getd {K V : Type} (eqb : K -> K -> bool) (d : list (K * V)) (k : K) (default : V) : V :=
+  match d with
+  | [] => default
+  | (k', v) :: t => if eqb k k' then v else py_dict_getd eqb t k default
+  end.
